@@ -157,6 +157,35 @@ def SameAnswer (a b : Except Err IdSet) : Prop :=
   | .error e, .error e' => e = e'
   | _, _ => False
 
+/-! ## an index inside a catalog, specified from its own projected history -/
+
+/-- a newly created index (nothing indexed yet) -/
+def Fresh : Index → Prop
+  | .field s => s = Field.init
+  | .keyword s => s = Keyword.init
+  | .facet s => ∃ F, s = Facet.init F
+
+/-- the specification's answer of an index created as `ix0` that received the calls `ops` -/
+def tableAnswer (ix0 : Index) (ops : List IxOp) (q : QArg) : Except Err IdSet :=
+  match ix0, q with
+  | .field _, .int q => fieldAnswer (Field.Spec.table (ops.filterMap fieldOp)) q
+  | .keyword _, .int q => kwAnswer (Keyword.Spec.table (ops.filterMap kwOp)) q
+  | .facet s, .fac q =>
+    kwAnswer (Facet.Spec.kwTable s.facets (Facet.Spec.table (ops.filterMap facetOp))) q
+  | _, _ => .error .unmodelled
+
+/-- the specification's answer of the index named `t.1` in the catalog created as `es` (standing
+behind `P`) after history `h`: computed from the table of that index's own projected history -/
+def specResolveAux (h : List (Op Doc)) (t : String × QArg) :
+    List (Cfg Doc) → List (Entry Doc) → Except Err IdSet
+  | _, [] => .error .valueError
+  | P, e :: es =>
+    if e.name == t.1 then tableAnswer e.ix (h.flatMap (project P e.disc)) t.2
+    else specResolveAux h t (P ++ [cfgOf e]) es
+
+def specResolve (c0 : Cat Doc) (h : List (Op Doc)) (t : String × QArg) : Except Err IdSet :=
+  specResolveAux h t [] c0
+
 /-! ## search -/
 
 /-- intersection of the answers of the queried indexes; none queried → nothing -/
